@@ -138,6 +138,15 @@ func c13Program(id string, strs []string, k0 int) *Prog {
 			body = append(body, &S{K: "assign", Lhs: []*E{{K: "index", Ty: TUint8, X: v(bn, bt), I: lit(TInt, 0)}}, Exprs: []*E{lit(TUint8, 'Z')}})
 			body = append(body, pr("im", sv, &E{K: "conv", Ty: TString, X: v(bn, bt)}))
 		}
+		// copy from a string moves its BYTES (typed byte) into the slice
+		cn := fmt.Sprintf("cb%d", n)
+		body = append(body, &S{K: "decl", Names: []string{cn}, Exprs: []*E{{K: "make", Ty: bt, X: lit(TInt, int64(len(s)+1))}}})
+		body = append(body, &S{K: "copy", Dst: v(cn, bt), E: sv})
+		body = append(body, pr("cp", cmp("==", &E{K: "conv", Ty: TString, X: &E{K: "slice", Ty: bt, X: v(cn, bt), Hi: lit(TInt, int64(len(s)))}}, sv), &E{K: "index", Ty: TUint8, X: v(cn, bt), I: lit(TInt, int64(len(s)))}))
+		for i := 0; i < len(s); i++ {
+			ix := &E{K: "index", Ty: TUint8, X: v(cn, bt), I: lit(TInt, int64(i))}
+			body = append(body, pr("cpb", ix, &E{K: "bin", Ty: TUint8, Op: "+", L: ix, R: lit(TUint8, 200)}))
+		}
 		for _, t := range cmpSet {
 			te := &E{K: "str", Ty: TString, S: t}
 			body = append(body, pr("c", cmp("<", sv, te), cmp("<=", sv, te), cmp("==", sv, te), cmp("!=", sv, te), cmp(">", sv, te), cmp(">=", sv, te)))
